@@ -65,109 +65,166 @@ def run(ctx):
 
     # ------------------------------------------------------------------ C16-token-tables
     ctx.rule("C16-token-tables", "every literal piece the printer emits is read as the token of the same class")
-    vfmt = variant_formats(fb, vf, "values::Value", {"Boolean": [False, True]})
+    # Printer x reader agreement, by abstract evaluation of both sides (printtables.py / lexrun.py): value skeletons with opaque
+    # leaves are printed; the text (leaves filled with atoms) is handed to the lexer; the token classes must be those of the
+    # skeleton: #t / #f, parentheses, `#(`, whitespace between elements, ` . ` exactly before a non-list tail.
+    from . import printtables, lexrun
+    d_pt = 0
+    for label, v, want in printtables.rows(fb):
+        t = printtables.print_value(fb, v)
+        key = "print-read/%s" % label
+        if isinstance(t, tuple):
+            ctx.undecided("C16-token-tables", key, "cannot follow the printer on this skeleton (%s)" % t[1], where_of(vf))
+            continue
+        txt, holes = printtables.fill(t)
+        toks = lexrun.lex(fb, txt)
+        if toks and toks[-1][0] == "stuck":
+            ctx.undecided("C16-token-tables", key, "cannot follow the lexer on the printed text %r (%s)" % (txt, toks[-1][1]), where_of(vf))
+            continue
+        d_pt += 1
+        got = [(k, pl) for k, pl, *_ in toks]
+        ctx.inst("C16-token-tables", key, {"printed": repr(t), "read_as": [g[0] for g in got]})
+        ctx.oblige(got == want)
+        if got != want:
+            ctx.report("C16-token-tables", key, "the value %s is printed as %r, which the reader tokenises as %s; expected %s" % (
+                label, txt, got, want), where_of(vf))
+    # characters: `#\` followed by the character itself
+    m_ = printtables.Mk(fb)
+    for ch in "a(1 ;\"":
+        t = printtables.print_value(fb, m_.value("Character", ord(ch)))
+        key = "print-read/char-%d" % ord(ch)
+        if isinstance(t, tuple) or not isinstance(t, str):
+            ctx.undecided("C16-token-tables", key, "cannot follow the printer on a character (%r)" % (t,), where_of(vf))
+            continue
+        toks = lexrun.lex(fb, t + " ")
+        got = [(k, pl) for k, pl, *_ in toks]
+        ctx.inst("C16-token-tables", key, {"printed": t, "read_as": got})
+        if toks and toks[-1][0] == "stuck":
+            ctx.undecided("C16-token-tables", key, "cannot follow the lexer on %r" % t, where_of(vf))
+        elif got[:1] != [("Character", ord(ch))]:
+            ctx.report("C16-token-tables", "Character/read", "the character %r is printed as %r, which reads as %s" % (ch, t, got), where_of(vf))
+    # numbers: Integer = the integer alone, Rational = numerator `/` denominator (that order), each read back as that class
+    for label, v, text_want, fillv, want_tok in (
+            ("Integer", m_.number("Integer", printtables.Tok("n")), None, ["42"], [("Integer", 42)]),
+            ("Rational", m_.number("Rational", printtables.Tok("n"), printtables.Tok("d")), None, ["7", "9"], [("Rational", (7, 9))])):
+        t = printtables.print_value(fb, v)
+        key = "print-read/%s" % label
+        if isinstance(t, tuple):
+            ctx.undecided("C16-token-tables", key, "cannot follow the printer (%s)" % t[1], where_of(nf))
+            continue
+        txt, holes = printtables.fill(t, atom=lambda i, h: fillv[i] if i < len(fillv) else "0")
+        order_ok = [getattr(h.value, "tag", None) for h in holes] == (["n"] if label == "Integer" else ["n", "d"])
+        toks = lexrun.lex(fb, txt + " ")
+        got = [(k, pl) for k, pl, *_ in toks]
+        ctx.inst("C16-token-tables", key, {"printed": repr(t), "read_as": got})
+        if toks and toks[-1][0] == "stuck":
+            ctx.undecided("C16-token-tables", key, "cannot follow the lexer on %r" % txt, where_of(nf))
+        elif got != want_tok or not order_ok:
+            ctx.report("C16-token-tables", key, "%s numbers are printed as %r (payload order %s), read back as %s" % (
+                label, t, [getattr(h.value, "tag", None) for h in holes], got), where_of(nf))
+    def _old_tables():
+        vfmt = variant_formats(fb, vf, "values::Value", {"Boolean": [False, True]})
 
-    def lits(key):
-        return ["".join(p for p in pieces if isinstance(p, str)) for pieces, k, o, t in vfmt.get(key, [])]
-    for val, key in ((True, "Boolean(True)"), (False, "Boolean(False)")):
-        ls = lits(key)
-        got = lex_tokens(fb, ls[0]) if len(ls) == 1 else None
-        ctx.inst("C16-token-tables", key, {"printed": ls, "read_as": got})
-        if got != "tok:Primitive:Boolean:%s" % val:
-            ctx.report("C16-token-tables", key, "%s is printed as %s, which the reader takes as %s" % (key, ls, got), where_of(vf))
-    # characters
-    cp = [pieces for pieces, k, o, t in vfmt.get("Character", [])]
-    if len(cp) != 1 or [x for x in cp[0] if isinstance(x, str)] != ["#\\"] or len(cp[0]) != 2 or isinstance(cp[0][1], str):
-        ctx.report("C16-token-tables", "Character", "characters are printed with the template %s, expected `#\\{}`" % cp, where_of(vf))
-    else:
-        bad = []
-        for c in "a(1 ;\"":
-            got = lex_tokens(fb, "#\\" + c)
-            if not got.startswith("tok:Primitive:Character"):
-                bad.append((c, got))
-        ctx.inst("C16-token-tables", "Character", {"template": "#\\{}", "misread": bad})
-        if bad:
-            ctx.report("C16-token-tables", "Character/read", "printed characters are misread: %s" % bad, where_of(vf))
-    # vectors
-    vp = [pieces for pieces, k, o, t in vfmt.get("Vector", [])]
-    ok = len(vp) == 1 and [x for x in vp[0] if isinstance(x, str)] == ["#(", ")"] and len(vp[0]) == 3
-    got_open = lex_tokens(fb, "#(") if ok else None
-    got_close = lex_tokens(fb, ")")
-    ctx.inst("C16-token-tables", "Vector", {"template": vp, "open_read_as": got_open, "close_read_as": got_close})
-    if not ok or got_open != "tok:VecConsIntro" or got_close != "tok:RightParen":
-        ctx.report("C16-token-tables", "Vector", "vectors are printed with %s (reader: %s ... %s)" % (vp, got_open, got_close), where_of(vf))
-    # element separator of vectors: the &str handed to itertools::join
-    seps = []
-    for g in [rf] + fb.closures_of(rf):
-        for b, t in g.calls():
-            if callee_matches(t, "itertools::join", "Itertools::join"):
-                seps.append(mir.str_of(g, t["args"][-1]))
-    ws = c06.R7RS_WS
-    ctx.inst("C16-token-tables", "Vector/separator", seps)
-    if len(seps) != 2 or any(s is None or s == "" or any(ord(ch) not in ws for ch in s) for s in seps):
-        ctx.report("C16-token-tables", "Vector/separator", "vector elements are separated by %s (must be whitespace the reader skips)" % seps, where_of(rf))
-    # elements are printed with their own Display (nested structure preserved)
-    for g in fb.closures_of(rf):
-        fcs = [x for x in mir.format_calls(g)]
-        if not fcs or any([p for p in x[2] if isinstance(p, str)] for x in fcs if x[2]):
-            ctx.report("C16-token-tables", "Vector/element", "vector elements are decorated when printed (%s)" % [x[2] for x in fcs], where_of(g))
-    # transparent variants: Number, Symbol, Pair print their payload only
-    for vn in ("Number", "Symbol", "Pair"):
-        ps = [pieces for pieces, k, o, t in vfmt.get(vn, [])]
-        plain = len(ps) == 1 and len(ps[0]) == 1 and not isinstance(ps[0][0], str)
-        ctx.inst("C16-token-tables", vn, {"template": ps})
-        if not plain:
-            ctx.report("C16-token-tables", vn, "%s values are printed with decoration %s" % (vn, ps), where_of(vf))
-    # lists
-    pieces_all = [(b, pieces, kinds, ops) for b, t, pieces, kinds, ops in mir.format_calls(pf)]
-    texts = ["".join(p if isinstance(p, str) else "{}" for p in pcs) for b, pcs, k, o in pieces_all if pcs]
-    ctx.inst("C16-token-tables", "Pair/pieces", texts)
-    if sorted(texts) != sorted(["(", "{}", " ", " . {}", ")"]):
-        ctx.report("C16-token-tables", "Pair/pieces", "lists are printed with the pieces %s, expected ( {} ' ' ' . {}' )" % texts, where_of(pf))
-    else:
-        if lex_tokens(fb, "(") != "tok:LeftParen" or lex_tokens(fb, ")") != "tok:RightParen":
-            ctx.report("C16-token-tables", "Pair/parens", "printed parentheses are not read as parentheses", where_of(pf))
-        tn = fb.find(LEX + "try_next")
-        env = {1: [absint.Enum(0, []), absint.UNKNOWN, [1, 1]]}
-        dot = c06.scripted(tn, [ord(".")], ord(" "), env)[0]
-        if dot != "tok:Period":
-            ctx.report("C16-token-tables", "Pair/dot", "` . ` is read as %s, not as a Period" % dot, where_of(pf))
+        def lits(key):
+            return ["".join(p for p in pieces if isinstance(p, str)) for pieces, k, o, t in vfmt.get(key, [])]
+        for val, key in ((True, "Boolean(True)"), (False, "Boolean(False)")):
+            ls = lits(key)
+            got = lex_tokens(fb, ls[0]) if len(ls) == 1 else None
+            ctx.inst("C16-token-tables", key, {"printed": ls, "read_as": got})
+            if got != "tok:Primitive:Boolean:%s" % val:
+                ctx.report("C16-token-tables", key, "%s is printed as %s, which the reader takes as %s" % (key, ls, got), where_of(vf))
+        # characters
+        cp = [pieces for pieces, k, o, t in vfmt.get("Character", [])]
+        if len(cp) != 1 or [x for x in cp[0] if isinstance(x, str)] != ["#\\"] or len(cp[0]) != 2 or isinstance(cp[0][1], str):
+            ctx.report("C16-token-tables", "Character", "characters are printed with the template %s, expected `#\\{}`" % cp, where_of(vf))
+        else:
+            bad = []
+            for c in "a(1 ;\"":
+                got = lex_tokens(fb, "#\\" + c)
+                if not got.startswith("tok:Primitive:Character"):
+                    bad.append((c, got))
+            ctx.inst("C16-token-tables", "Character", {"template": "#\\{}", "misread": bad})
+            if bad:
+                ctx.report("C16-token-tables", "Character/read", "printed characters are misread: %s" % bad, where_of(vf))
+        # vectors
+        vp = [pieces for pieces, k, o, t in vfmt.get("Vector", [])]
+        ok = len(vp) == 1 and [x for x in vp[0] if isinstance(x, str)] == ["#(", ")"] and len(vp[0]) == 3
+        got_open = lex_tokens(fb, "#(") if ok else None
+        got_close = lex_tokens(fb, ")")
+        ctx.inst("C16-token-tables", "Vector", {"template": vp, "open_read_as": got_open, "close_read_as": got_close})
+        if not ok or got_open != "tok:VecConsIntro" or got_close != "tok:RightParen":
+            ctx.report("C16-token-tables", "Vector", "vectors are printed with %s (reader: %s ... %s)" % (vp, got_open, got_close), where_of(vf))
+        # element separator of vectors: the &str handed to itertools::join
+        seps = []
+        for g in [rf] + fb.closures_of(rf):
+            for b, t in g.calls():
+                if callee_matches(t, "itertools::join", "Itertools::join"):
+                    seps.append(mir.str_of(g, t["args"][-1]))
+        ws = c06.R7RS_WS
+        ctx.inst("C16-token-tables", "Vector/separator", seps)
+        if len(seps) != 2 or any(s is None or s == "" or any(ord(ch) not in ws for ch in s) for s in seps):
+            ctx.report("C16-token-tables", "Vector/separator", "vector elements are separated by %s (must be whitespace the reader skips)" % seps, where_of(rf))
+        # elements are printed with their own Display (nested structure preserved)
+        for g in fb.closures_of(rf):
+            fcs = [x for x in mir.format_calls(g)]
+            if not fcs or any([p for p in x[2] if isinstance(p, str)] for x in fcs if x[2]):
+                ctx.report("C16-token-tables", "Vector/element", "vector elements are decorated when printed (%s)" % [x[2] for x in fcs], where_of(g))
+        # transparent variants: Number, Symbol, Pair print their payload only
+        for vn in ("Number", "Symbol", "Pair"):
+            ps = [pieces for pieces, k, o, t in vfmt.get(vn, [])]
+            plain = len(ps) == 1 and len(ps[0]) == 1 and not isinstance(ps[0][0], str)
+            ctx.inst("C16-token-tables", vn, {"template": ps})
+            if not plain:
+                ctx.report("C16-token-tables", vn, "%s values are printed with decoration %s" % (vn, ps), where_of(vf))
+        # lists
+        pieces_all = [(b, pieces, kinds, ops) for b, t, pieces, kinds, ops in mir.format_calls(pf)]
+        texts = ["".join(p if isinstance(p, str) else "{}" for p in pcs) for b, pcs, k, o in pieces_all if pcs]
+        ctx.inst("C16-token-tables", "Pair/pieces", texts)
+        if sorted(texts) != sorted(["(", "{}", " ", " . {}", ")"]):
+            ctx.report("C16-token-tables", "Pair/pieces", "lists are printed with the pieces %s, expected ( {} ' ' ' . {}' )" % texts, where_of(pf))
+        else:
+            if lex_tokens(fb, "(") != "tok:LeftParen" or lex_tokens(fb, ")") != "tok:RightParen":
+                ctx.report("C16-token-tables", "Pair/parens", "printed parentheses are not read as parentheses", where_of(pf))
+            tn = fb.find(LEX + "try_next")
+            env = {1: [absint.Enum(0, []), absint.UNKNOWN, [1, 1]]}
+            dot = c06.scripted(tn, [ord(".")], ord(" "), env)[0]
+            if dot != "tok:Period":
+                ctx.report("C16-token-tables", "Pair/dot", "` . ` is read as %s, not as a Period" % dot, where_of(pf))
+    ctx.guarded('C16-token-tables', d_pt >= 15, _old_tables)
 
     # ------------------------------------------------------------------ C16-number-alphabet
     ctx.rule("C16-number-alphabet", "printed numbers stay inside the alphabet the number scanner accepts")
-    nfmt = variant_formats(fb, nf, "values::Number")
-    for vn, want in (("Integer", (["{}"], ["display"])), ("Rational", (["{}", "/", "{}"], ["display", "display"])), ("Real", (["{}"], ["debug"]))):
-        fm = nfmt.get(vn, [])
-        if len(fm) != 1:
-            ctx.report("C16-number-alphabet", vn, "%s: format not recognised" % vn, where_of(nf))
+    # which std formatter prints each numeric payload (printer evaluated abstractly: the payload is a hole that remembers how
+    # it was formatted): integers and both ratio components with Display, reals with Debug (keeps the `.0` / exponent form)
+    for vn, payload, want_kinds in (("Integer", [printtables.Tok("n")], ["display"]), ("Rational", [printtables.Tok("n"), printtables.Tok("d")], ["display", "display"]),
+                                    ("Real", [printtables.Tok("r")], ["debug"])):
+        t = printtables.print_value(fb, m_.number(vn, *payload))
+        if isinstance(t, tuple):
+            ctx.undecided("C16-number-alphabet", vn, "cannot follow the printer on a %s (%s)" % (vn, t[1]), where_of(nf))
             continue
-        pieces, kinds, ops, t = fm[0]
-        shape = [p if isinstance(p, str) else "{}" for p in pieces]
-        tys = []
-        for o in ops:
-            r, pth = mir.trace_access(nf, o)
-            tys.append(pth)
-        ctx.inst("C16-number-alphabet", vn, {"template": shape, "kinds": kinds, "fields": tys})
-        if (shape, kinds) != want:
-            ctx.report("C16-number-alphabet", vn, "%s is printed as %s with %s, expected %s with %s" % (vn, shape, kinds, want[0], want[1]), where_of(nf))
-        elif vn == "Rational" and [p[-1] for p in tys] != [0, 1]:
-            ctx.report("C16-number-alphabet", "Rational/order", "a ratio is printed denominator first (%s)" % tys, where_of(nf))
-    # the scanner: sign only in front; `/` then digits; `.`/`e` lead to the real exits; sign after e
-    num = fb.find(LEX + "number")
-    env = lambda cur: {1: [absint.Enum(1, [cur]), absint.UNKNOWN, [1, 1]]}
-    r1 = c06.scripted(num, [], ord("/"), env(ord("1")), stop_at_lexer_calls=True)
-    r2 = c06.scripted(num, [], ord("."), env(ord("1")))
-    r3 = c06.scripted(num, [], ord("e"), env(ord("1")))
-    ctx.inst("C16-number-alphabet", "scanner", {"after '/'": r1[0], "after '.'": r2[0], "after 'e'": r3[0]})
-    if r1[0] != "more" or r2[0] != "->real" or r3[0] != "->number_suffix":
-        ctx.report("C16-number-alphabet", "scanner", "the number scanner does not continue on `/` `.` `e` as the printer requires "
-                   "(%s, %s, %s)" % (r1[0], r2[0], r3[0]), where_of(num))
-    ns = fb.find(LEX + "number_suffix")
-    signs = {chr(pk): c06.scripted(ns, [None], [pk], env(ord("1")))[1] for pk in (ord("-"), ord("+"), ord("5"))}
-    neg_exp_ok = ("push", ord("-")) in signs["-"]
-    ctx.inst("C16-number-alphabet", "exponent-sign", {"accepted_minus": neg_exp_ok})
-    if not neg_exp_ok:
-        ctx.report("C16-number-alphabet", "exponent-sign", "a negative exponent (as printed by Debug for small reals) is not accepted", where_of(ns))
+        holes = [p for p in (t.parts if not isinstance(t, str) else []) if not isinstance(p, str)]
+        lits = "".join(p for p in (t.parts if not isinstance(t, str) else [t]) if isinstance(p, str))
+        kinds = [h.kind for h in holes]
+        ctx.inst("C16-number-alphabet", vn, {"literal_text": lits, "payload_formatters": kinds})
+        ok_ = kinds == want_kinds and lits == ("/" if vn == "Rational" else "")
+        ctx.oblige(ok_)
+        if not ok_:
+            ctx.report("C16-number-alphabet", vn, "%s is printed with literal text %r and payload formatters %s, expected %r with %s" % (
+                vn, lits, kinds, "/" if vn == "Rational" else "", want_kinds), where_of(nf))
+    # the reader accepts what those formatters emit: a sign only in front, `/` then digits, `.` / `e` / a signed exponent
+    for text, want in (("-3 ", ("Integer", -3)), ("7/9 ", ("Rational", (7, 9))), ("-7/9 ", ("Rational", (-7, 9))), ("1.5 ", ("Real", "1.5")),
+                       ("-0.25 ", ("Real", "-0.25")), ("1e-5 ", ("Real", "1e-5")), ("1.5e3 ", ("Real", "1.5e3")), ("1e21 ", ("Real", "1e21")),
+                       ("5e-39 ", ("Real", "5e-39")), ("0.0 ", ("Real", "0.0"))):
+        toks = lexrun.lex(fb, text)
+        got = toks[0][:2] if toks else None
+        key = "scanner/%s" % text.strip()
+        if toks and toks[-1][0] == "stuck":
+            ctx.undecided("C16-number-alphabet", key, "cannot follow the lexer on %r (%s)" % (text, toks[-1][1]), where_of(nf))
+            continue
+        ctx.inst("C16-number-alphabet", key, {"read_as": got})
+        ctx.oblige(got == want)
+        if got != want:
+            ctx.report("C16-number-alphabet", key, "the printed number %r is read as %s, expected %s" % (text.strip(), toks, want), where_of(nf))
     # a negative denominator must never be printed: the sign analysis of C09
     from .ctx import Ctx
     sub = Ctx("C09", ctx.tier, ctx.seed)
@@ -187,10 +244,19 @@ def run(ctx):
     pv = {n: i for i, n in fb.variants("parser::datum::Primitive")}
     sw = next(iter(mir.discriminant_switches(ep, "Primitive")), None)
     if not sw:
-        ctx.report("C16-real-literal", "shape", "eval_primitive does not dispatch on Primitive", where_of(ep))
+        ctx.undecided("C16-real-literal", "shape", "eval_primitive does not dispatch on Primitive", where_of(ep))
     else:
         reg = mir.dominated_region(ep, sw[3].get(pv["Real"], sw[4]))
         fs = [ep] + [c for c in fb.closures_of(ep)]
+        parses = [t for _, t in ep.calls(reg) if callee_matches(t, "<impl str>::parse")]
+        if not parses:
+            # the conversion may have moved into a helper called from this arm
+            for _, t in ep.calls(reg):
+                h = fb.by_path(callee(t) or "")
+                if h is not None:
+                    fs.append(h)
+                    fs.extend(fb.closures_of(h))
+                    parses += [tt for _, tt in h.calls() if callee_matches(tt, "<impl str>::parse")]
         suspicious = []
         for g in fs:
             blocks = reg if g is ep else None
@@ -207,46 +273,65 @@ def run(ctx):
                 for b, i, st in g.stmts():
                     if st["k"] == "assign" and st["rv"]["k"] == "binop" and st["rv"]["op"] in ("Lt", "Le", "Gt", "Ge") and "f" in str(st["rv"].get("lty")):
                         suspicious.append("float comparison")
-        parses = [t for _, t in ep.calls(reg) if callee_matches(t, "<impl str>::parse")]
+
         ctx.inst("C16-real-literal", "eval_primitive/Real-arm", {"parse_calls": len(parses), "value_dependent_rejections": sorted(set(suspicious))})
         if len(parses) != 1:
-            ctx.report("C16-real-literal", "parse", "real literals are not converted by one str::parse", where_of(ep))
+            ctx.undecided("C16-real-literal", "parse", "real literals are not converted by exactly one str::parse in eval_primitive or a "
+                          "helper it calls (%d found)" % len(parses), where_of(ep))
         if suspicious:
             ctx.report("C16-real-literal", "rejection", "the conversion of a real literal rejects values by comparison (%s): some finite real that the "
                        "printer emits (e.g. a subnormal like 5e-39) may not read back" % sorted(set(suspicious)), where_of(ep))
 
     # ------------------------------------------------------------------ C16-dotted
     ctx.rule("C16-dotted", "dotted tail only for improper lists; single spaces between elements")
-    dom = pf.dominators()
-    by_text = {}
-    for b, pcs, k, o in pieces_all:
-        by_text["".join(p if isinstance(p, str) else "{}" for p in pcs)] = b
-    esw = [x for x in mir.discriminant_switches(pf) if x[2].endswith("either::Either")]
-    gsw = [x for x in mir.discriminant_switches(pf) if x[2].endswith("GenericPair")]
-    if not esw or " . {}" not in by_text or " " not in by_text:
-        ctx.report("C16-dotted", "shape", "list printer shape not recognised", where_of(pf))
-    else:
-        ev = {n: i for i, n in fb.variants("either::Either")} if "either::Either" in fb.adts else {"Left": 0, "Right": 1}
-        sb, place, adt, targets, other = esw[0]
-        right_t = targets.get(1, other)
-        left_t = targets.get(0, other)
-        dot_ok = right_t in dom[by_text[" . {}"]] and left_t not in dom[by_text[" . {}"]]
-        # the space: on the Left edge and only when the next pair is Some
-        sp_b = by_text[" "]
-        gv = {n: i for i, n in fb.variants("parser::pair::GenericPair")}
-        some_guard = False
-        for sb2, pl2, a2, tg2, ot2 in gsw:
-            st = tg2.get(gv["Some"])
-            if st is not None and st in dom[sp_b] and sb2 in pf.reachable(left_t):
-                some_guard = True
-        sp_ok = left_t in dom[sp_b] and some_guard
-        ctx.inst("C16-dotted", "edges", {"dot_only_on_non_pair_cdr": dot_ok, "space_only_before_next_pair": sp_ok})
-        if not dot_ok:
-            ctx.report("C16-dotted", "dot", "` . ` is not written exactly on the non-pair cdr edge", where_of(pf))
-        if not sp_ok:
-            ctx.report("C16-dotted", "space", "the element separator is not written exactly when another pair follows", where_of(pf))
-        # the dotted tail ends the loop
-        loops = pf.loops()
-        if loops and loops[0][0] in pf.reachable(by_text[" . {}"]) and mir.paths_avoiding(pf, by_text[" . {}"], [loops[0][0]], []) is not None:
-            ctx.report("C16-dotted", "dot-continues", "after the dotted tail the printer keeps iterating", where_of(pf))
+    # decided by the list rows of the print/read table above: (a b c), (a . b), (a b . c), (a ()), ((a) b) print with single
+    # spaces and ` . ` exactly before a non-list tail; exact text:
+    d_dot = 0
+    for label, v, _w in printtables.rows(fb):
+        if not label.startswith("("):
+            continue
+        t = printtables.print_value(fb, v)
+        if isinstance(t, tuple):
+            continue
+        txt, _h = printtables.fill(t, atom=lambda i, h: "abc"[i])
+        d_dot += 1
+        ctx.inst("C16-dotted", "text/%s" % label, {"printed": txt})
+        ctx.oblige(txt == label)
+        if txt != label:
+            ctx.report("C16-dotted", "text/%s" % label, "the list %s is printed as %r" % (label, txt), where_of(pf))
+    def _old_dotted():
+        pieces_all = [(b, pieces, kinds, ops) for b, t, pieces, kinds, ops in mir.format_calls(pf)]
+        dom = pf.dominators()
+        by_text = {}
+        for b, pcs, k, o in pieces_all:
+            by_text["".join(p if isinstance(p, str) else "{}" for p in pcs)] = b
+        esw = [x for x in mir.discriminant_switches(pf) if x[2].endswith("either::Either")]
+        gsw = [x for x in mir.discriminant_switches(pf) if x[2].endswith("GenericPair")]
+        if not esw or " . {}" not in by_text or " " not in by_text:
+            ctx.report("C16-dotted", "shape", "list printer shape not recognised", where_of(pf))
+        else:
+            ev = {n: i for i, n in fb.variants("either::Either")} if "either::Either" in fb.adts else {"Left": 0, "Right": 1}
+            sb, place, adt, targets, other = esw[0]
+            right_t = targets.get(1, other)
+            left_t = targets.get(0, other)
+            dot_ok = right_t in dom[by_text[" . {}"]] and left_t not in dom[by_text[" . {}"]]
+            # the space: on the Left edge and only when the next pair is Some
+            sp_b = by_text[" "]
+            gv = {n: i for i, n in fb.variants("parser::pair::GenericPair")}
+            some_guard = False
+            for sb2, pl2, a2, tg2, ot2 in gsw:
+                st = tg2.get(gv["Some"])
+                if st is not None and st in dom[sp_b] and sb2 in pf.reachable(left_t):
+                    some_guard = True
+            sp_ok = left_t in dom[sp_b] and some_guard
+            ctx.inst("C16-dotted", "edges", {"dot_only_on_non_pair_cdr": dot_ok, "space_only_before_next_pair": sp_ok})
+            if not dot_ok:
+                ctx.report("C16-dotted", "dot", "` . ` is not written exactly on the non-pair cdr edge", where_of(pf))
+            if not sp_ok:
+                ctx.report("C16-dotted", "space", "the element separator is not written exactly when another pair follows", where_of(pf))
+            # the dotted tail ends the loop
+            loops = pf.loops()
+            if loops and loops[0][0] in pf.reachable(by_text[" . {}"]) and mir.paths_avoiding(pf, by_text[" . {}"], [loops[0][0]], []) is not None:
+                ctx.report("C16-dotted", "dot-continues", "after the dotted tail the printer keeps iterating", where_of(pf))
+    ctx.guarded('C16-dotted', d_dot >= 7, _old_dotted)
     return EXPLANATION, NOT_DECIDED
